@@ -346,7 +346,7 @@ FINDINGS = [
             'the input with the type operator pushed under that INTROSPECT',
             '`x IS ((TYPEOF INTROSPECT T) | U)` prints `(x IS (TYPEOF INTROSPECT T | U))` = TYPEOF INTROSPECT (T | U): residual of the repaired '
             'C01-prefix-left-operand (visit_TypeOp was not changed)',
-            tag='prefix-left-operand', sig=r'\|TypeOp\([&|]\)>TypeOf$'),
+            sig=r'\|TypeOp\([&|]\)>TypeOf$', printed=r'TYPEOF\b.*\bINTROSPECT\b.*[|&]'),
     Finding('C01-prefix-left-operand', 'same-ast', f'{CG}::visit_BinOp/visit_IsOp/visit_TypeOp/visit_IfElse + visit_UnaryOp/visit_TypeCast/visit_DetachedExpr/visit_Introspect/visit_TypeOf/visit_Constant',
             'the left operand of a binary / IS / type operator (or the first operand of python-style IF..ELSE) is, or ends on its right spine '
             '(UnaryOp.operand, TypeCast.expr, DetachedExpr.expr, Introspect.type, TypeOf.expr) in, a prefix form (+x, -x, NOT x, EXISTS x, DISTINCT x, '
@@ -413,10 +413,24 @@ FINDINGS = [
             'SDL declaration `overloaded [required|optional] [single|multi] [link|property] p { using (<expr>) }` (computed pointer written with a body)',
             "printed in the short form `overloaded ... p := (<expr>);`, which the grammar does not have for OVERLOADED (Unexpected ':=')",
             sig=r"Unexpected ':='", printed=r"\boverloaded\s+[^;{}]*?:="),
-    Finding('C01-sdl-trigger-qualified-name', 'same-ast', f'{CG}::visit_CreateTrigger',
+    Finding('C01-sdl-trigger-qualified-name', 'same-ast|reparse', f'{CG}::visit_CreateTrigger',
             'SDL trigger declared with a module-qualified name (`trigger a::b after insert ...`; the DDL form rejects such names, the SDL grammar accepts them)',
-            'only the short name is printed: CreateTrigger.name.module is lost',
-            sig=r"CreateTrigger\.name/ObjectRef\.module\|str>None$"),
+            'only the short name is printed: CreateTrigger.name.module is lost; when the short name is a keyword that is only allowed after `::` '
+            '(`trigger a::except ...`) the print is rejected',
+            feat='trigger-qualified-name',
+            special=lambda c, r, f: (f['kind'] == 'same-ast' and bool(re.search(r"CreateTrigger\.name/ObjectRef\.module\|str>None$", f.get('sig') or '')))
+            or (f['kind'] == 'reparse' and bool(re.search(r'\btrigger\s+(?!\w+\s*::)', f.get('printed') or '', re.I)))),
+    Finding('C01-abstract-index-kwarg-statement-bare', 'reparse', f'{CG}::visit_CreateIndex (keyword arguments of CREATE ABSTRACT INDEX / SDL abstract index)',
+            'a SELECT/INSERT/UPDATE/DELETE/FOR/GROUP/WITH statement as a keyword argument of an ABSTRACT index definition',
+            'printed without the parentheses the grammar requires: `create abstract index i(conf := select 1) extending fts;` -- residual of the repaired '
+            'C01-ddl-value-statement-bare (annotation values, concrete index / constraint arguments are parenthesised now)',
+            feat='abstract-index-kwarg-statement',
+            printed=r"abstract\s+index\s[^;{]*\(\s*(?:[^()]*,\s*)?\S+\s*:=\s*(with|select|insert|update|delete|for|group)\b"),
+    Finding('C01-operator-returning-typeof-block', 'reparse|same-ast', f'{CG}::visit_CreateOperator (returning type printed with visit, not _ddl_visit_type_before_body)',
+            'CREATE [ABSTRACT] OPERATOR whose returning type is TYPEOF <expr> and that has at least one command (printed as a `{ ... }` block)',
+            'the block is printed right after `TYPEOF <expr>`, where `{` is read as a shape on <expr>: '
+            "`create abstract infix operator o(a: int64, b: int64) -> typeof x set a := 1;` prints `... ->  TYPEOF x { set a := 1; };`",
+            feat='operator-returning-typeof-block', printed=r"operator\b[^;{]*->\s*(?:\w+\s+)?TYPEOF\b[^;]*?\{"),
     Finding('C01-partial-reserved-bare', 'reparse|same-ast', 'edb/edgeql/quote.py::needs_quoting (only RESERVED_KEYWORD is consulted)',
             'an identifier `union`, `except` or `intersect` (partial reserved keywords) that the input had to quote',
             'printed bare; in expression position the parser reads the keyword',
@@ -529,6 +543,8 @@ REPLAYS = {
     'C01-typeop-left-typeof-introspect': ('fragment', 'x is ((typeof introspect T) | U)'),
     'C01-sdl-overloaded-computed': ('sdl', 'module default { type T { overloaded p { using (1) } } }'),
     'C01-sdl-trigger-qualified-name': ('sdl', 'module default { type T { trigger a::b after insert for all do (1) } }'),
+    'C01-abstract-index-kwarg-statement-bare': ('block', 'create abstract index i(conf := (select 1)) extending fts;'),
+    'C01-operator-returning-typeof-block': ('block', 'create abstract infix operator o(a: int64, b: int64) -> typeof x set a := 1;'),
     'C01-extension-package-migration-to-version': ('block', "create extension package foo migration from version '1.0' to version '2.0';"),
     'C01-drop-extension-version': ('block', "drop extension foo version '1.0';"),
     'C01-operator-multi-using-bare': ('block', "create infix operator std::`||` (a: int64, b: int64) -> int64 { using sql operator '||'; using sql function 'array_cat'; };"),
@@ -576,9 +592,12 @@ FINDINGS.sort(key=_prio)       # structural / signature predicates first, featur
 
 def classify(case, res, f, listed):
     """-> finding if the failure is a recognised finding whose id is listed in known_findings.json"""
+    first = None
     for fd in FINDINGS:
         if fd.matches(case, res, f):
-            return fd if (fd.id in listed or '*' in listed) else None
+            if fd.id in listed or '*' in listed:
+                return fd
+            first = first or fd
     return None
 
 
@@ -1138,10 +1157,13 @@ def run(tier):
                 info[f['mode'] + ' ' + f['kind']] += 1
                 continue
             fd = None
-            for cand in FINDINGS:
-                if cand.matches(case, r, f):
-                    fd = cand
-                    break
+            for cand in FINDINGS:                      # a failure is downgraded when ANY listed predicate holds of it;
+                if cand.matches(case, r, f):           # otherwise the first (most specific) recognised one names it
+                    if fd is None:
+                        fd = cand
+                    if cand.id in listed:
+                        fd = cand
+                        break
             if fd is not None and fd.id in listed:
                 known[fd.id] += 1
             else:
